@@ -882,10 +882,14 @@ def check_py_module(res):
                     return not last
                 if s in ("i>0", "i!=0", "i", "0<i"):
                     return not first
-                if s in ("i==0",):
+                if s in ("i==0", "i<=0", "0>=i", "i<1", "0==i"):
                     return first
-                if s in ("i==n-1",):
+                if s in ("i>=1", "1<=i"):
+                    return not first
+                if s in ("i==n-1", "i>=n-1", "n-1<=i", "n-1==i"):
                     return last
+                if s in ("i<n", "n>i", "i<=n-1", "n-1>=i", "i>=0", "0<=i"):
+                    return True             # holds for every child index
                 raise AnalysisError("range-prop: unrecognised test %s" % s)
             pushed = []
 
